@@ -6,6 +6,7 @@ import (
 	"encoding/json"
 	"fmt"
 	"io"
+	"os"
 	"path/filepath"
 	"strings"
 
@@ -77,6 +78,14 @@ func runC06(seed int64, n int, dir string, tier string) *Report {
 	rep.Rule = "n random documents written by the real writer in SPDX 2.3 and CycloneDX 1.3/1.4/1.5 JSON at a random indentation 0..8, each also re-encoded (compact, members sorted, non-ASCII escaped); plus near-miss declarations (case variants, unknown versions, wrong types, nulls, duplicate and nested members, arrays, trailing data), tag-value texts with the tag and the version on the same or on different lines, and arbitrary bytes; non-trivial = writer output or an input for which a format is reported; distinct by hash"
 	cf := &CasesFile{Imports: "Model.Base Model.Sniff Corr.CheckC06", Type: "case06", Eval: "mismatches"}
 	sn := &formats.Sniffer{}
+	probes := 0
+	// a directory is not an SBOM
+	if f, err := sn.SniffFile(dir); err == nil {
+		rep.Fail(Failure{What: "format detection on a directory reported a format", Detail: string(f), Input: map[string]any{"path": "(a directory)"}})
+	}
+	if f, err := sn.SniffFile(filepath.Join(dir, "no-such-file")); err == nil {
+		rep.Fail(Failure{What: "format detection on a missing file reported a format", Detail: string(f), Input: map[string]any{"path": "(missing)"}})
+	}
 	probe := func(kind string, data []byte, want formats.Format, wantKnown bool) {
 		rs := bytes.NewReader(data)
 		var got formats.Format
@@ -120,6 +129,23 @@ func runC06(seed int64, n int, dir string, tier string) *Report {
 		}
 		if (err == nil) == (got == "") {
 			rep.Fail(Failure{What: "format detection returned both or neither of a format and an error", Input: in})
+		}
+		// the file entry point: same answer as the stream entry point on the same bytes
+		probes++
+		if probes%3 == 0 {
+			path := filepath.Join(dir, "sniff-input.tmp")
+			if werr := os.WriteFile(path, data, 0o600); werr == nil {
+				var fgot formats.Format
+				var ferr error
+				fpv := safely(func() { fgot, ferr = sn.SniffFile(path) })
+				os.Remove(path)
+				rep.Count("input_via_file")
+				if fpv != nil {
+					rep.Fail(Failure{What: "format detection on a file panicked", Detail: fmt.Sprint(fpv), Input: in})
+				} else if (ferr == nil) != (err == nil) || fgot != got {
+					rep.Fail(Failure{What: "format detection on a file disagrees with detection on a stream of the same bytes", Detail: fmt.Sprintf("file: %q (%v), stream: %q (%v)", fgot, ferr, got, err), Input: in})
+				}
+			}
 		}
 		if wantKnown {
 			if want == "" && err == nil {
@@ -166,6 +192,36 @@ func runC06(seed int64, n int, dir string, tier string) *Report {
 					probe("reencoded-odd-indent", pretty, f, true)
 				}
 			}
+		}
+	}
+	// size: detection must not depend on how large the writer's output is (documents of tens of thousands of
+	// components are ordinary); a few sizes around powers of two, the largest in the thorough tier only
+	sizes := []int{600, 5000, 12000}
+	if tier == "thorough" {
+		sizes = append(sizes, 40000, 100000)
+	}
+	for _, nn := range sizes {
+		big := sbom.NewDocument()
+		big.Metadata.Id = "urn:uuid:big"
+		big.NodeList.RootElements = []string{"n0"}
+		for k := 0; k < nn; k++ {
+			big.NodeList.Nodes = append(big.NodeList.Nodes, &sbom.Node{Id: fmt.Sprintf("n%d", k), Name: fmt.Sprintf("component-%d", k), Version: "1.0.0",
+				Description: strings.Repeat("a description of ordinary length for a package; ", 8), Licenses: []string{"Apache-2.0"},
+				Identifiers: map[int32]string{int32(sbom.SoftwareIdentifierType_PURL): fmt.Sprintf("pkg:npm/component-%d@1.0.0", k)}})
+			if k > 0 {
+				big.NodeList.Edges = append(big.NodeList.Edges, &sbom.Edge{Type: sbom.Edge_contains, From: "n0", To: []string{fmt.Sprintf("n%d", k)}})
+			}
+		}
+		for _, f := range detectFormats {
+			var buf bytes.Buffer
+			w := writer.New(writer.WithFormat(f))
+			w.Options.RenderOptions.Indent = []int{0, 2, 4}[nn%3]
+			if err := w.WriteStream(big, nopCloser{&buf}); err != nil {
+				rep.Count("writer_error")
+				continue
+			}
+			rep.Count(fmt.Sprintf("large-writer-output>=%dMiB", buf.Len()>>20))
+			probe("large-writer-output", buf.Bytes(), f, true)
 		}
 	}
 	nearMiss := []struct {
